@@ -69,7 +69,8 @@ func (c36) NewRun(plan *simrt.Source, job *harn.Job) harn.Run {
 		}
 		return irrelevant[plan.Draw(len(irrelevant))]
 	}
-	kinds := []string{"create", "create", "rewrite", "rewrite", "append", "truncate", "touch", "touch", "rename", "delete", "mkdir", "subfile"}
+	kinds := []string{"create", "create", "rewrite", "rewrite", "append", "truncate", "touch", "touch", "rename", "delete", "mkdir", "subfile",
+		"chmod", "file-to-dir", "dir-to-file", "huge", "epoch", "far-future", "empty"}
 	for i := 0; i < n; i++ {
 		s := step{Kind: kinds[plan.Draw(len(kinds))], Name: name(), Name2: name(), Size: plan.Draw(40), Clock: plan.Draw(len(clockSteps))}
 		r.steps = append(r.steps, s)
@@ -283,6 +284,61 @@ func (r *c36run) RunSeq(sched *simrt.Source, keepLog bool) *simrt.Result {
 				break
 			}
 			os.Remove(p)
+		case "chmod": // permission bits are not part of the projection
+			fi, err := os.Lstat(p)
+			if err != nil || !fi.Mode().IsRegular() {
+				did = "skip"
+				break
+			}
+			os.Chmod(p, []os.FileMode{0600, 0644, 0755, 0444}[st.Size%4])
+		case "file-to-dir": // the name stays, but it is no longer a regular file
+			fi, err := os.Lstat(p)
+			if err != nil || !fi.Mode().IsRegular() {
+				did = "skip"
+				break
+			}
+			os.Remove(p)
+			os.Mkdir(p, 0755)
+			stamp(p)
+		case "dir-to-file":
+			fi, err := os.Lstat(p)
+			if err != nil || !fi.IsDir() {
+				did = "skip"
+				break
+			}
+			if os.Remove(p) != nil { // not empty
+				did = "skip"
+				break
+			}
+			os.WriteFile(p, content(st.Size, i), 0644)
+			stamp(p)
+		case "huge": // sparse file: sizes beyond 32 bits
+			fi, err := os.Lstat(p)
+			if err != nil || !fi.Mode().IsRegular() {
+				did = "skip"
+				break
+			}
+			os.Truncate(p, int64(1)<<32+fi.Size()%1000)
+			stamp(p)
+		case "empty":
+			fi, err := os.Lstat(p)
+			if err != nil || !fi.Mode().IsRegular() {
+				did = "skip"
+				break
+			}
+			os.Truncate(p, 0)
+			stamp(p)
+		case "epoch", "far-future": // extreme modification times (a restored backup, a broken clock)
+			fi, err := os.Lstat(p)
+			if err != nil || !fi.Mode().IsRegular() {
+				did = "skip"
+				break
+			}
+			t := time.Unix(int64(st.Size), int64(st.Size)*7)
+			if st.Kind == "far-future" {
+				t = time.Date(2200, 1, 1, 0, 0, st.Size, st.Size, time.UTC)
+			}
+			os.Chtimes(p, t, t)
 		case "mkdir":
 			d := filepath.Join(pkgDir, "dir_"+st.Name)
 			os.Mkdir(d, 0755)
